@@ -150,6 +150,8 @@ class Scenario:
                 # only meaningful once the first submission has failed
                 j = self.jobs[step[1]]
                 return j is not None and j._future is not None and j._future.done()
+            if step[0] == "redup":
+                return self.main_pc > 0
             return True
 
         ev = self.w.add(("main", self.pid) + tuple(step) if self.key_base else ("main",) + tuple(step), lambda: self._main(step), enabled)
@@ -181,9 +183,18 @@ class Scenario:
             if self.jobs[i].state == SB.JobState.ERROR:
                 cfg = self._config(i)
                 object.__setattr__(cfg, "xv_key", ("re", i))
-                self.w.codes[("re", i)] = self.codes[i]
-                cfg.submit()
+                self.w.codes[("re", i)] = self.recodes[i] if getattr(self, "recodes", None) else self.codes[i]
+                self.re_outputs = getattr(self, "re_outputs", []) + [cfg.submit()]
                 self.re_jobs.append(cfg.__xpm__.job)
+        elif step[0] == "redup":
+            # a duplicate of the re-submission of job i
+            i = step[1]
+            if self.re_jobs:
+                cfg = self._config(i)
+                object.__setattr__(cfg, "xv_key", ("redup", i))
+                self.w.codes[("redup", i)] = 0
+                out = cfg.submit()
+                self.dups.append((("re", i), cfg, out))
         elif step[0] == "wait":
             try:
                 self.xp.wait()
@@ -250,6 +261,14 @@ class Scenario:
                     held = held + r
             if held > self.total:
                 self.violations.append("capacity exceeded")
+        if self.token is not None and self.w.fs_events:
+            # multi-process model: the on-disk record is what other processes
+            # rely on - a job whose process runs must have its token file
+            for p in self.w.running_procs():
+                if self._req_of(p.job) is not None:
+                    f = self.token.path / f"{p.job.identifier}.token"
+                    if not f.is_file():
+                        self.violations.append("a running job has no token file (capacity exceeded as soon as another job acquires)")
         if self.token2 is not None:
             held2 = 0
             for p in self.w.running_procs():
@@ -452,7 +471,9 @@ def duo(shard, c0, c1, rev, choices, kill_at=None):
     w = A.w
     w.fs_events = True
     B = Scenario("one", [c1], rev=rev, token="file", total=total, reqs=[reqs[1]], key_base=10)
-    B.start(world=w, name="x2", pid=2)
+    # observer variant: the second process only holds a CounterToken instance
+    # on the directory (it submits nothing)
+    B.start(world=w, name="x2", pid=2, program=[("wait",)] if shard.get("observer") else None)
     w.fs_scan()
     if kill_at is None:
         A.run(choices, shard["K"], prefix=shard.get("prefix") or ())
